@@ -29,15 +29,17 @@ theorem trimSpace_spaces_only (n : Nat) : trimSpace (spaces n) = [] := by
 /-- a chunk of a location: non-empty, location characters only -/
 def LocChunk (c : Str) : Prop := c ≠ [] ∧ ∀ x ∈ c, isLocChar x = true
 
-theorem isLocChar_facts {x : Char} (h : isLocChar x = true) : x ≠ ' ' ∧ x ≠ '/' ∧ isSpace x = false := by
-  refine ⟨by rintro rfl; revert h; decide, by rintro rfl; revert h; decide, ?_⟩
-  simp only [isSpace, Bool.or_eq_false_iff, beq_eq_false_iff_ne]
-  refine ⟨⟨⟨⟨⟨?_, ?_⟩, ?_⟩, ?_⟩, ?_⟩, ?_⟩ <;> (rintro rfl; revert h; decide)
+theorem isVisible_facts {x : Char} (h : isVisible x = true) : x ≠ ' ' ∧ isSpace x = false ∧ isPrint x = true := by
+  simp only [isVisible, Bool.and_eq_true, bne_iff_ne, ne_eq] at h
+  exact ⟨h.2, isSpace_false_of_print h.1 h.2, h.1⟩
+
+theorem isLocChar_facts {x : Char} (h : isLocChar x = true) : x ≠ ' ' ∧ isSpace x = false := by
+  have := isVisible_facts (x := x) h; exact ⟨this.1, this.2.1⟩
 
 theorem LocChunk.trim {c : Str} (h : LocChunk c) (n : Nat) : trimSpace (spaces n ++ c) = c := by
   have := trimSpace_spaces n 0 c
-    (fun x hx => (isLocChar_facts (h.2 x (List.mem_of_mem_head? hx))).2.2)
-    (fun x hx => (isLocChar_facts (h.2 x (List.mem_of_getLast? hx))).2.2)
+    (fun x hx => (isLocChar_facts (h.2 x (List.mem_of_mem_head? hx))).2)
+    (fun x hx => (isLocChar_facts (h.2 x (List.mem_of_getLast? hx))).2)
   simpa [spaces] using this
 
 /-- the condition of the location-continuation loop -/
@@ -46,7 +48,7 @@ def IsLocCont (l : Str) : Prop :=
 
 instance (l : Str) : Decidable (IsLocCont l) := by unfold IsLocCont; exact inferInstance
 
-theorem isLocCont_chunk {c : Str} (h : LocChunk c) : IsLocCont (spaces 21 ++ c) := by
+theorem isLocCont_chunk {c : Str} (h : LocChunk c) (hs : c.head? ≠ some '/') : IsLocCont (spaces 21 ++ c) := by
   obtain ⟨hne, hall⟩ := h
   obtain ⟨x, xs, rfl⟩ : ∃ x xs, c = x :: xs := by cases c with | nil => exact absurd rfl hne | cons x xs => exact ⟨x, xs, rfl⟩
   refine ⟨by simp [spaces, qualifierIndex], ?_, ?_⟩
@@ -54,11 +56,11 @@ theorem isLocCont_chunk {c : Str} (h : LocChunk c) : IsLocCont (spaces 21 ++ c) 
       simp [qualifierIndex, spaces, List.take_append]
     rw [this]; exact trimSpace_spaces_only 21
   · rw [show qualifierIndex = 21 from rfl, spaces21_get21]
-    simp; exact (isLocChar_facts (hall x (by simp))).2.1
+    simpa using hs
 
 /-- the location loop runs over the continuation lines and stops at the first other line -/
 theorem locLoop_conts (lines : List Str) (lineIndex : Nat) (conts : List Str) (stop : Str) (B : List Str)
-    (hc : ∀ c ∈ conts, LocChunk c) (hstop : ¬ IsLocCont stop) :
+    (hc : ∀ c ∈ conts, LocChunk c ∧ c.head? ≠ some '/') (hstop : ¬ IsLocCont stop) :
     ∀ (A : List Str) (n : Nat) (loc : Str) (fuel : Nat),
       lines = A ++ (conts.map (spaces 21 ++ ·) ++ stop :: B) → lineIndex + n + 1 = A.length → conts.length < fuel →
       locLoop lines lineIndex fuel n loc = .ok (loc ++ conts.flatten, n + conts.length + 1) := by
@@ -76,13 +78,13 @@ theorem locLoop_conts (lines : List Str) (lineIndex : Nat) (conts : List Str) (s
   | cons c cs ih =>
     intro A n loc fuel hl hi hf
     obtain ⟨f, rfl⟩ : ∃ f, fuel = f + 1 := ⟨fuel - 1, by simp at hf; omega⟩
-    have hcc := hc c (by simp)
+    obtain ⟨hcc, hcs⟩ := hc c (by simp)
     simp only [List.map_cons, List.cons_append] at hl
     subst hl
     simp only [locLoop]
     rw [show lineIndex + (n + 1) = A.length by omega, lineAt_mid]
     simp only [Outcome.bind_ok']
-    have hpos := isLocCont_chunk hcc
+    have hpos := isLocCont_chunk hcc hcs
     simp only [IsLocCont] at hpos
     rw [if_pos hpos, hcc.trim 21]
     rw [ih (fun x hx => hc x (by simp [hx])) (A ++ [spaces 21 ++ c]) (n + 1) (loc ++ c) f (by simp)
@@ -97,30 +99,35 @@ abbrev unclosed (qualifier : Str) : Bool := unclosedQuote qualifier
 /-- `qualifier += " " + chunk` / `qualifier += chunk` -/
 def appendQ (isTr : Bool) (q d : Str) : Str := if !isTr then q ++ c!" " ++ d else q ++ d
 
-/-- what the continuation loop needs of the qualifier text so far and of the chunks still to come -/
+/-- what the continuation loop needs of the qualifier text so far and of the chunks still to come: a
+chunk that begins with '/' is accepted only while the quotation mark is open -/
 def QState (isTr : Bool) : Str → List Str → Prop
   | q, [] => unclosed q = false
-  | q, d :: rest => unclosed q = true ∧ d ≠ [] ∧ trimSpace (spaces 21 ++ d) = d ∧ QState isTr (appendQ isTr q d) rest
+  | q, d :: rest => (d.head? = some '/' → unclosed q = true) ∧ d ≠ [] ∧ trimSpace (spaces 21 ++ d) = d
+      ∧ QState isTr (appendQ isTr q d) rest
 
-/-- a continuation line is accepted: by its column when it does not begin with '/', by the open
-quotation mark when it does -/
-theorem cont_line_checks (d : Str) (hd : d ≠ []) :
-    (quickQualifierSubLineCheck (spaces 21 ++ d) = .ok true) ∨
-      (quickQualifierSubLineCheck (spaces 21 ++ d) = .ok false ∧ quickQualifierCheck (spaces 21 ++ d) = .ok true) := by
+/-- a continuation line that does not begin with '/' is accepted by its column -/
+theorem cont_line_plain (d : Str) (hd : d ≠ []) (hs : d.head? ≠ some '/') :
+    quickQualifierSubLineCheck (spaces 21 ++ d) = .ok true := by
   obtain ⟨x, xs, rfl⟩ : ∃ x xs, d = x :: xs := by cases d with | nil => exact absurd rfl hd | cons x xs => exact ⟨x, xs, rfl⟩
-  by_cases hx : x = '/'
-  · right
-    subst hx
-    have g0 := spaces21_get ('/' :: xs) 0 (by omega)
-    have g5 := spaces21_get ('/' :: xs) 5 (by omega)
-    have g21 : (spaces 21 ++ '/' :: xs)[21]? = some '/' := by rw [spaces21_get21]; rfl
-    simp [quickQualifierSubLineCheck, quickQualifierCheck, Str.at, subMetaIndex, qualifierIndex, g0, g5, g21]
-  · left
-    have g0 := spaces21_get (x :: xs) 0 (by omega)
-    have g5 := spaces21_get (x :: xs) 5 (by omega)
-    have g20 := spaces21_get (x :: xs) 20 (by omega)
-    have g21 : (spaces 21 ++ x :: xs)[21]? = some x := by rw [spaces21_get21]; rfl
-    simp [quickQualifierSubLineCheck, Str.at, subMetaIndex, qualifierIndex, g0, g5, g20, g21, hx]
+  have hx : x ≠ '/' := by simpa using hs
+  have g0 := spaces21_get (x :: xs) 0 (by omega)
+  have g5 := spaces21_get (x :: xs) 5 (by omega)
+  have g20 := spaces21_get (x :: xs) 20 (by omega)
+  have g21 : (spaces 21 ++ x :: xs)[21]? = some x := by rw [spaces21_get21]; rfl
+  simp [quickQualifierSubLineCheck, Str.at, subMetaIndex, qualifierIndex, g0, g5, g20, g21, hx]
+
+/-- one that begins with '/' only by the open quotation mark -/
+theorem cont_line_slash (d : Str) (hs : d.head? = some '/') :
+    quickQualifierSubLineCheck (spaces 21 ++ d) = .ok false ∧ quickQualifierCheck (spaces 21 ++ d) = .ok true := by
+  obtain ⟨xs, rfl⟩ : ∃ xs, d = '/' :: xs := by
+    cases d with
+    | nil => simp at hs
+    | cons x xs => simp at hs; subst hs; exact ⟨xs, rfl⟩
+  have g0 := spaces21_get ('/' :: xs) 0 (by omega)
+  have g5 := spaces21_get ('/' :: xs) 5 (by omega)
+  have g21 : (spaces 21 ++ '/' :: xs)[21]? = some '/' := by rw [spaces21_get21]; rfl
+  simp [quickQualifierSubLineCheck, quickQualifierCheck, Str.at, subMetaIndex, qualifierIndex, g0, g5, g21]
 
 theorem subLoop_conts (lines : List Str) (isTr : Bool) (ds : List Str) (stop : Str) (B : List Str)
     (hstop : quickQualifierSubLineCheck stop = .ok false) :
@@ -155,10 +162,12 @@ theorem subLoop_conts (lines : List Str) (isTr : Bool) (ds : List Str) (stop : S
     simp only [List.map_cons, List.cons_append, List.headD_cons, subLoop]
     have happ : (if !isTr then q ++ c!" " ++ trimSpace (spaces 21 ++ d) else q ++ trimSpace (spaces 21 ++ d)) = appendQ isTr q d := by
       rw [htr]; rfl
-    rcases cont_line_checks d hd with h1 | ⟨h1, h2⟩
-    · simp only [h1, Outcome.bind_ok', if_true, Bool.not_true, Bool.false_eq_true, if_false, happ, hnext]
+    by_cases hs : d.head? = some '/'
+    · obtain ⟨h1, h2⟩ := cont_line_slash d hs
+      simp only [h1, Outcome.bind_ok', Bool.false_eq_true, if_false, hu hs, if_true, h2, Bool.not_true, happ, hnext]
       rw [hrec]; simp [List.foldl_cons]; omega
-    · simp only [h1, Outcome.bind_ok', Bool.false_eq_true, if_false, hu, if_true, h2, Bool.not_true, happ, hnext]
+    · have h1 := cont_line_plain d hd hs
+      simp only [h1, Outcome.bind_ok', if_true, Bool.not_true, Bool.false_eq_true, if_false, happ, hnext]
       rw [hrec]; simp [List.foldl_cons]; omega
 
 /-! ### the text of one qualifier -/
@@ -192,47 +201,64 @@ structure KeyOK (k : Str) : Prop where
 
 theorem keyOK_of_wf {k : Str} (h1 : k ≠ []) (h2 : k.all isQualKeyChar = true) : KeyOK k := by
   rw [List.all_eq_true] at h2
-  refine ⟨h1, ?_, ?_, ?_⟩
-  · intro hm; have := h2 _ hm; revert this; decide
-  · intro hm; have := h2 _ hm; revert this; decide
-  · intro c hc
+  have hv : ∀ c ∈ k, isVisible c = true ∧ c ≠ '=' ∧ c ≠ '/' ∧ c ≠ '"' := by
+    intro c hc
     have := h2 c hc
-    simp only [isQualKeyChar, isLower, isDigit, Bool.or_eq_true, Bool.and_eq_true, decide_eq_true_eq, beq_iff_eq] at this
-    simp only [isSpace, Bool.or_eq_false_iff, beq_eq_false_iff_ne]
-    refine ⟨⟨⟨⟨⟨?_, ?_⟩, ?_⟩, ?_⟩, ?_⟩, ?_⟩ <;> (rintro rfl; revert this; decide)
+    simp only [isQualKeyChar, Bool.and_eq_true, bne_iff_ne, ne_eq] at this
+    exact ⟨this.1.1.1, this.1.1.2, this.1.2, this.2⟩
+  refine ⟨h1, ?_, ?_, ?_⟩
+  · intro hm; exact (hv _ hm).2.2.2 rfl
+  · intro hm; exact (hv _ hm).2.1 rfl
+  · intro c hc; exact (isVisible_facts (hv c hc).1).2.1
 
 theorem count_W (k : Str) (hk : KeyOK k) : (W k).count '"' = 1 := by
   simp only [W]
   rw [List.count_cons, count_quote_append, count_zero_of_not_mem hk.noq]
   decide
 
-/-- the qualifier text so far is open: one quotation mark, last character not blank -/
-theorem unclosed_open (k : Str) (hk : KeyOK k) (body : Str) (hb : '"' ∉ body) (hl : NSLast (W k ++ body)) :
+/-- the qualifier text so far is open: it holds a quotation mark and does not end with one -/
+theorem unclosed_open (k : Str) (body : Str) (hl : NSLast (W k ++ body)) (hend : (W k ++ body).getLast? ≠ some '"') :
     unclosed (spaces 21 ++ (W k ++ body)) = true := by
   simp only [unclosed, unclosedQuote]
   rw [trimSpace_21 (W k ++ body) '/' (k ++ c!"=\"" ++ body) (by simp [W]) (by decide) hl]
-  have hc : (W k ++ body).count '"' = 1 := by rw [count_quote_append, count_W k hk, count_zero_of_not_mem hb]
-  have he : List.elem '"' (W k ++ body) = true := by
-    simp [W]
-  rw [he, hc]; rfl
+  have he : List.elem '"' (W k ++ body) = true := by simp [W]
+  have hs : hasSuffix (W k ++ body) c!"\"" = false := by
+    cases h : hasSuffix (W k ++ body) c!"\"" with
+    | false => rfl
+    | true =>
+      exfalso; apply hend
+      simp only [hasSuffix, List.reverse_cons, List.reverse_nil, List.nil_append] at h
+      rw [← List.head?_reverse]
+      cases hr : (W k ++ body).reverse with
+      | nil => rw [hr] at h; simp [List.isPrefixOf] at h
+      | cons y ys => rw [hr] at h; simp [List.isPrefixOf] at h; rw [← h]; rfl
+  rw [he, hs]; simp
 
 theorem hasSuffix_append_self (a b : Str) : hasSuffix (a ++ b) b = true := by
   simp [hasSuffix, List.reverse_append]
 
-theorem unclosed_closed (k : Str) (hk : KeyOK k) (body : Str) (hb : '"' ∉ body) :
+/-- the complete text is closed: the opening and the closing quotation mark, the closing one last -/
+theorem unclosed_closed (k : Str) (body : Str) :
     unclosed (spaces 21 ++ (W k ++ body ++ c!"\"")) = false := by
   simp only [unclosed, unclosedQuote]
   have hl : NSLast (W k ++ body ++ c!"\"") := by
     intro c hc; rw [getLast?_append_ne _ _ (by simp)] at hc; simp at hc; subst hc; decide
   rw [trimSpace_21 (W k ++ body ++ c!"\"") '/' (k ++ c!"=\"" ++ body ++ c!"\"") (by simp [W]) (by decide) hl]
-  have hc : (W k ++ body ++ c!"\"").count '"' = 2 := by
-    rw [count_quote_append, count_quote_append, count_W k hk, count_zero_of_not_mem hb]; rfl
-  rw [hc, hasSuffix_append_self]; simp
+  have hc : 2 ≤ (W k ++ body ++ c!"\"").count '"' := by
+    rw [count_quote_append, count_quote_append]
+    have h1 : 1 ≤ (W k).count '"' := by
+      simp only [W]; rw [List.count_cons, count_quote_append]
+      have : (c!"=\"").count '"' = 1 := by decide
+      omega
+    have h2 : (c!"\"").count '"' = 1 := by decide
+    omega
+  rw [hasSuffix_append_self]
+  have : decide ((W k ++ body ++ c!"\"").count '"' ≥ 2) = true := by simpa using hc
+  rw [this]; simp
 
-/-- chunk lists as the writer produces them for a value: boundaries `Bnd`, no quotation mark, printable -/
+/-- chunk lists as the writer produces them for a value: boundaries `BndQ`, printable -/
 structure ValChunks (p : Char) (cs : List Str) : Prop where
-  bnd : Bnd p cs
-  noq : ∀ c ∈ cs, '"' ∉ c
+  bnd : BndQ p cs
   pr : ∀ c ∈ cs, ∀ x ∈ c, isPrint x = true
 
 theorem join_cons_cons (sep a b : Str) (r : List Str) : join sep (a :: b :: r) = a ++ sep ++ join sep (b :: r) := rfl
@@ -247,10 +273,11 @@ theorem isSpace_iff_of_print {c : Char} (h : isPrint c = true) : isSpace c = fal
   · intro hs; rintro rfl; revert hs; decide
   · exact isSpace_false_of_print h
 
-/-- the continuation loop over the chunks of one value: the state stays open until the last chunk and
-the text put together is `/key="` + the chunks joined by the separator + `"` -/
-theorem qstate_chunks (isTr : Bool) (k : Str) (hk : KeyOK k) :
-    ∀ (cs : List Str) (c0 pre : Str) (p : Char), ValChunks p (c0 :: cs) → '"' ∉ pre →
+/-- the continuation loop over the chunks of one value: a chunk beginning with '/' finds the quotation
+mark open, the complete text is closed, and the text put together is `/key="` + the chunks joined by the
+separator + `"` -/
+theorem qstate_chunks (isTr : Bool) (k : Str) :
+    ∀ (cs : List Str) (c0 pre : Str) (p : Char), ValChunks p (c0 :: cs) →
       (cs ≠ [] → ∃ x, c0.getLast? = some x ∧ x ≠ ' ') →
       ∃ d0 ds, closeLast (c0 :: cs) = d0 :: ds ∧
         QState isTr (spaces 21 ++ (W k ++ pre ++ d0)) ds ∧
@@ -259,23 +286,18 @@ theorem qstate_chunks (isTr : Bool) (k : Str) (hk : KeyOK k) :
   intro cs
   induction cs with
   | nil =>
-    intro c0 pre p hv hpre _
+    intro c0 pre p hv _
     refine ⟨c0 ++ c!"\"", [], rfl, ?_, ?_⟩
     · simp only [QState]
-      have := unclosed_closed k hk (pre ++ c0) (by
-        simp only [List.mem_append, not_or]; exact ⟨hpre, hv.noq c0 (by simp)⟩)
+      have := unclosed_closed k (pre ++ c0)
       simpa [List.append_assoc] using this
     · simp [join, List.append_assoc]
   | cons c1 cs' ih =>
-    intro c0 pre p hv hpre hlast
+    intro c0 pre p hv hlast
     obtain ⟨x0, hx0, hx0ne⟩ := hlast (by simp)
-    obtain ⟨hb1, ⟨y, ys, hy, hyne⟩, hb3⟩ := hv.bnd
+    obtain ⟨hb1, ⟨y, ys, hy, hyne, hguard⟩, hb3⟩ := hv.bnd
     subst hy
-    have hv' : ValChunks p ((y :: ys) :: cs') :=
-      ⟨hb3, fun c hc => hv.noq c (by simp [hc]), fun c hc => hv.pr c (by simp [hc])⟩
-    have hsepq : '"' ∉ sepOf isTr := by cases isTr <;> simp [sepOf]
-    have hpre' : '"' ∉ pre ++ c0 ++ sepOf isTr := by
-      simp only [List.mem_append, not_or]; exact ⟨⟨hpre, hv.noq c0 (by simp)⟩, hsepq⟩
+    have hv' : ValChunks p ((y :: ys) :: cs') := ⟨hb3, fun c hc => hv.pr c (by simp [hc])⟩
     have hlast' : cs' ≠ [] → ∃ x, (y :: ys).getLast? = some x ∧ x ≠ ' ' := by
       intro hne
       obtain ⟨c2, cs'', rfl⟩ : ∃ c2 cs'', cs' = c2 :: cs'' := by
@@ -284,18 +306,11 @@ theorem qstate_chunks (isTr : Bool) (k : Str) (hk : KeyOK k) :
       have e : (y :: ys).getLast? = some ((y :: ys).getLast (by simp)) := List.getLast?_eq_some_getLast (by simp)
       rw [e] at h
       exact ⟨_, e, by simpa using h⟩
-    obtain ⟨d1, ds', hcl, hqs, hfold⟩ := ih (y :: ys) (pre ++ c0 ++ sepOf isTr) p hv' hpre' hlast'
+    obtain ⟨d1, ds', hcl, hqs, hfold⟩ := ih (y :: ys) (pre ++ c0 ++ sepOf isTr) p hv' hlast'
+    have hc0ne : c0 ≠ [] := by rintro rfl; simp at hx0
+    have hlastq : (W k ++ pre ++ c0).getLast? = some x0 := by rw [getLast?_append_ne _ _ hc0ne, hx0]
     refine ⟨c0, d1 :: ds', by rw [closeLast_cons_cons, hcl], ?_, ?_⟩
-    · -- open state, then the first continuation chunk
-      have hopen : unclosed (spaces 21 ++ (W k ++ pre ++ c0)) = true := by
-        rw [List.append_assoc (W k)]
-        apply unclosed_open k hk (pre ++ c0) (by simp only [List.mem_append, not_or]; exact ⟨hpre, hv.noq c0 (by simp)⟩)
-        intro c hc
-        have hc0ne : c0 ≠ [] := by rintro rfl; simp at hx0
-        rw [← List.append_assoc, getLast?_append_ne _ _ hc0ne, hx0] at hc
-        cases hc
-        exact isSpace_false_of_print (hv.pr c0 (by simp) x0 (List.mem_of_getLast? hx0)) hx0ne
-      -- d1 is y :: ys (possibly with the closing quotation mark)
+    · -- d1 is y :: ys (possibly with the closing quotation mark)
       have hd1 : ∃ t, d1 = y :: t ∧ NSLast d1 := by
         cases cs' with
         | nil =>
@@ -313,11 +328,23 @@ theorem qstate_chunks (isTr : Bool) (k : Str) (hk : KeyOK k) :
           exact isSpace_false_of_print (hv.pr (y :: ys) (by simp) x (List.mem_of_getLast? hx)) hxne
       obtain ⟨t, hd1eq, hd1last⟩ := hd1
       have hyprint : isPrint y = true := hv.pr (y :: ys) (by simp) y (by simp)
-      refine ⟨hopen, by rw [hd1eq]; simp, trimSpace_21 d1 y t hd1eq (isSpace_false_of_print hyprint hyne) hd1last, ?_⟩
-      rw [appendQ_eq]
-      have : spaces 21 ++ (W k ++ pre ++ c0) ++ sepOf isTr ++ d1 = spaces 21 ++ (W k ++ (pre ++ c0 ++ sepOf isTr) ++ d1) := by
-        simp [List.append_assoc]
-      rw [this]; exact hqs
+      refine ⟨?_, by rw [hd1eq]; simp, trimSpace_21 d1 y t hd1eq (isSpace_false_of_print hyprint hyne) hd1last, ?_⟩
+      · -- a chunk beginning with '/': the text so far does not end with a quotation mark
+        intro hslash
+        have hy : y = '/' := by rw [hd1eq] at hslash; simpa using hslash
+        rw [List.append_assoc (W k)]
+        apply unclosed_open k (pre ++ c0)
+        · intro c hc
+          rw [← List.append_assoc, hlastq] at hc; cases hc
+          exact isSpace_false_of_print (hv.pr c0 (by simp) x0 (List.mem_of_getLast? hx0)) hx0ne
+        · rw [← List.append_assoc, hlastq]
+          intro e; cases e
+          apply hguard
+          rw [hx0]; exact ⟨rfl, hy⟩
+      · rw [appendQ_eq]
+        have : spaces 21 ++ (W k ++ pre ++ c0) ++ sepOf isTr ++ d1 = spaces 21 ++ (W k ++ (pre ++ c0 ++ sepOf isTr) ++ d1) := by
+          simp [List.append_assoc]
+        rw [this]; exact hqs
     · rw [List.foldl_cons, appendQ_eq]
       have : spaces 21 ++ (W k ++ pre ++ c0) ++ sepOf isTr ++ d1 = spaces 21 ++ (W k ++ (pre ++ c0 ++ sepOf isTr) ++ d1) := by
         simp [List.append_assoc]
@@ -334,29 +361,32 @@ theorem takeWhile_append_stop (p : Char → Bool) (a : Str) (c : Char) (r : Str)
     have := ih (fun y hy => ha y (by simp [hy]))
     simp [List.takeWhile, List.dropWhile, ha x (by simp), this.1, this.2]
 
-theorem trim_quotes (v : Str) (hv : '"' ∉ v) : trim ('"' :: (v ++ c!"\"")) c!"\"" = v := by
-  have hnot : ∀ x ∈ v, (c!"\"").contains x = false := by
-    intro x hx; simp; rintro rfl; exact hv hx
+/-- the enclosing quotation marks are stripped as a set of characters: the value comes back when it
+neither begins nor ends with one -/
+theorem trim_quotes (v : Str) (h1 : v.head? ≠ some '"') (h2 : v.getLast? ≠ some '"') :
+    trim ('"' :: (v ++ c!"\"")) c!"\"" = v := by
   have hq : (c!"\"").contains '"' = true := by decide
   simp only [trim]
   rw [List.dropWhile_cons_of_pos hq]
-  -- front: v has no quotation mark, so only the closing one may go (when v is empty)
   cases v with
   | nil => simp [List.dropWhile]
   | cons x xs =>
-    have hx : (c!"\"").contains x = false := hnot x (by simp)
+    have hx : (c!"\"").contains x = false := by
+      have : x ≠ '"' := by simpa using h1
+      simp [this]
     rw [List.cons_append, List.dropWhile_cons_of_neg (by rw [hx]; simp)]
     have : (x :: (xs ++ c!"\"")).reverse = '"' :: (x :: xs).reverse := by simp
     rw [this, List.dropWhile_cons_of_pos hq]
-    have hl : ∃ y ys, (x :: xs).reverse = y :: ys ∧ y ∈ x :: xs := by
-      cases h : (x :: xs).reverse with
-      | nil => simp at h
-      | cons y ys => exact ⟨y, ys, rfl, by rw [← List.mem_reverse, h]; simp⟩
-    obtain ⟨y, ys, hrev, hy⟩ := hl
-    rw [hrev, List.dropWhile_cons_of_neg (by rw [hnot y hy]; simp), ← hrev, List.reverse_reverse]
+    cases hrev : (x :: xs).reverse with
+    | nil => simp at hrev
+    | cons y ys =>
+      have hy : y ≠ '"' := by
+        have : (x :: xs).getLast? = some y := by rw [← List.head?_reverse, hrev]; rfl
+        rintro rfl; exact h2 this
+      rw [List.dropWhile_cons_of_neg (by simp [hy]), ← hrev, List.reverse_reverse]
 
 /-- key and value from the complete qualifier text -/
-theorem parse_qual_text (k v : Str) (hk : KeyOK k) (hv : '"' ∉ v) :
+theorem parse_qual_text (k v : Str) (hk : KeyOK k) (h1 : v.head? ≠ some '"') (h2 : v.getLast? ≠ some '"') :
     let qf := spaces 21 ++ (W k ++ v ++ c!"\"")
     let sp := splitN2 '=' (trimSpace qf)
     sp = ['/' :: k, '"' :: (v ++ c!"\"")] ∧ trimPrefix (trimSpace ('/' :: k)) c!"/" = k
@@ -392,7 +422,7 @@ theorem parse_qual_text (k v : Str) (hk : KeyOK k) (hv : '"' ∉ v) :
       · intro c hc; simp at hc; subst hc; decide
       · intro c hc
         rw [← List.cons_append, getLast?_append_ne _ _ (by simp)] at hc; simp at hc; subst hc; decide
-    rw [this]; exact trim_quotes v hv
+    rw [this]; exact trim_quotes v h1 h2
 
 /-! ### the first line of a qualifier -/
 
@@ -426,17 +456,16 @@ theorem qual_first_line (k d0 : Str) (hk : KeyOK k) :
 /-! ### the chunks the writer makes of a value -/
 
 theorem wfQual_parts {q : Str × Str} (h : wfQual q = true) :
-    KeyOK q.1 ∧ '"' ∉ q.2 ∧ ∀ x ∈ q.2, isPrint x = true := by
+    KeyOK q.1 ∧ (∀ x ∈ q.2, isPrint x = true) ∧ q.2.head? ≠ some '"' ∧ q.2.getLast? ≠ some '"' := by
   simp only [wfQual, Bool.and_eq_true, bne_iff_ne, ne_eq, List.all_eq_true] at h
-  obtain ⟨⟨h1, h2⟩, h3⟩ := h
-  refine ⟨keyOK_of_wf h1 (by rw [List.all_eq_true]; exact h2), ?_, fun x hx => (h3 x hx).1⟩
-  intro hm; exact (h3 _ hm).2 rfl
+  obtain ⟨⟨⟨⟨h1, h2⟩, h3⟩, h4⟩, h5⟩ := h
+  exact ⟨keyOK_of_wf h1 (by rw [List.all_eq_true]; exact h2), h3, h4, h5⟩
 
-theorem valueChunks_ok (k v : Str) (bs : List Nat) (hq : '"' ∉ v) (hp : ∀ x ∈ v, isPrint x = true) :
+theorem valueChunks_ok (k v : Str) (bs : List Nat) (hp : ∀ x ∈ v, isPrint x = true) :
     ∃ c0 cs, valueChunks k v bs = c0 :: cs ∧ ValChunks ' ' (c0 :: cs) ∧
       join (sepOf (('/' :: k) == c!"/translation")) (c0 :: cs) = v ∧
       (cs ≠ [] → ∃ x, c0.getLast? = some x ∧ x ≠ ' ') := by
-  have hlast : ∀ (c0 : Str) (cs : List Str), Bnd ' ' (c0 :: cs) → cs ≠ [] → ∃ x, c0.getLast? = some x ∧ x ≠ ' ' := by
+  have hlast : ∀ (c0 : Str) (cs : List Str), BndQ ' ' (c0 :: cs) → cs ≠ [] → ∃ x, c0.getLast? = some x ∧ x ≠ ' ' := by
     intro c0 cs hb hne
     obtain ⟨c1, cs', rfl⟩ : ∃ c1 cs', cs = c1 :: cs' := by
       cases cs with | nil => exact absurd rfl hne | cons a b => exact ⟨a, b, rfl⟩
@@ -449,30 +478,30 @@ theorem valueChunks_ok (k v : Str) (bs : List Nat) (hq : '"' ∉ v) (hp : ∀ x 
   · subst hk
     have hsep : sepOf (('/' :: c!"translation") == c!"/translation") = [] := rfl
     rw [if_pos rfl]
-    have hne := cutAux_ne_nil bs 0 ' ' v
-    cases hw : cutText bs v with
+    have hne := cutAuxV_ne_nil bs 0 ' ' v
+    cases hw : cutTextV bs v with
     | nil => exact absurd hw hne
     | cons c0 cs =>
-      have hb : Bnd ' ' (c0 :: cs) := by rw [← hw]; exact Bnd_cutAux bs 0 ' ' v
-      have hf : (c0 :: cs).flatten = v := by rw [← hw]; exact flatten_cutAux bs 0 ' ' v
+      have hb : BndQ ' ' (c0 :: cs) := by rw [← hw]; exact BndQ_cutAuxV bs 0 ' ' v
+      have hf : (c0 :: cs).flatten = v := by rw [← hw]; exact flatten_cutAuxV bs 0 ' ' v
       have hmem : ∀ c ∈ c0 :: cs, ∀ x ∈ c, x ∈ v := by
         intro c hc x hx; rw [← hf]; exact mem_of_mem_flatten_chunk _ c hc x hx
-      refine ⟨c0, cs, rfl, ⟨hb, fun c hc hm => hq (hmem c hc _ hm), fun c hc x hx => hp x (hmem c hc x hx)⟩, ?_, hlast c0 cs hb⟩
+      refine ⟨c0, cs, rfl, ⟨hb, fun c hc x hx => hp x (hmem c hc x hx)⟩, ?_, hlast c0 cs hb⟩
       rw [hsep, join_nil_eq_flatten]; exact hf
   · have hsep : sepOf (('/' :: k) == c!"/translation") = c!" " := by
       have : (('/' :: k) == c!"/translation") = false := by
         rw [beq_eq_false_iff_ne]; intro e; exact hk (List.cons.inj e).2
       rw [this]; rfl
     simp only [hk, if_false]
-    have hne := wrapAux_ne_nil bs 0 ' ' v
-    cases hw : wrapText bs v with
+    have hne := wrapAuxV_ne_nil bs 0 ' ' v
+    cases hw : wrapTextV bs v with
     | nil => exact absurd hw hne
     | cons c0 cs =>
-      have hb : Bnd ' ' (c0 :: cs) := by rw [← hw]; exact Bnd_wrapAux bs 0 ' ' v
-      have hj : join c!" " (c0 :: cs) = v := by rw [← hw]; exact join_wrapText bs v
+      have hb : BndQ ' ' (c0 :: cs) := by rw [← hw]; exact BndQ_wrapAuxV bs 0 ' ' v
+      have hj : join c!" " (c0 :: cs) = v := by rw [← hw]; exact join_wrapAuxV bs 0 ' ' v
       have hmem : ∀ c ∈ c0 :: cs, ∀ x ∈ c, x ∈ v := by
         intro c hc x hx; rw [← hj]; exact mem_of_join_mem _ _ c hc x hx
-      refine ⟨c0, cs, rfl, ⟨hb, fun c hc hm => hq (hmem c hc _ hm), fun c hc x hx => hp x (hmem c hc x hx)⟩, ?_, hlast c0 cs hb⟩
+      refine ⟨c0, cs, rfl, ⟨hb, fun c hc x hx => hp x (hmem c hc x hx)⟩, ?_, hlast c0 cs hb⟩
       rw [hsep]; exact hj
 
 /-- `qualifierKey == "/translation"` as the loop computes it from the first line -/
@@ -542,7 +571,7 @@ theorem unclosed_noquote (X : Str) (h : '"' ∉ trimSpace X) : unclosed X = fals
 
 /-- the lines the writer makes of a qualifier, whatever the style, are such lines -/
 theorem qualLines_ok (k v : Str) (bs : List Nat) (st : Nat) (h : wfQual (k, v) = true) : QLines k v (qualLines k v bs st) := by
-  obtain ⟨hk, hq, hp⟩ := wfQual_parts h
+  obtain ⟨hk, hp, hh1, hh2⟩ := wfQual_parts h
   unfold qualLines
   split
   · -- `/key`
@@ -582,8 +611,9 @@ theorem qualLines_ok (k v : Str) (bs : List Nat) (st : Nat) (h : wfQual (k, v) =
       rename_i _ hst
       have hcu := hst.2
       simp only [canUnquote, Bool.and_eq_true, bne_iff_ne, ne_eq, Bool.not_eq_true'] at hcu
-      obtain ⟨hvne, hvsp⟩ := hcu
+      obtain ⟨⟨hvne, hvsp⟩, hvq⟩ := hcu
       have hvsp' : ' ' ∉ v := by simpa using hvsp
+      have hq : '"' ∉ v := by simpa using hvq
       obtain ⟨c1, c2, c3, c4⟩ := slashKey_line k ('=' :: v) hk (Or.inr ⟨v, rfl⟩)
       have hL : spaces 21 ++ c!"/" ++ k ++ c!"=" ++ v = spaces 21 ++ ('/' :: (k ++ '=' :: v)) := by simp
       have hvlast : ∀ c, v.getLast? = some c → isSpace c = false := by
@@ -636,8 +666,8 @@ theorem qualLines_ok (k v : Str) (bs : List Nat) (st : Nat) (h : wfQual (k, v) =
         simp only [attributeValueOf]
         rw [hv1, hv2]; simp [trimPrefix]
     · -- `/key="value"`, wrapped
-      obtain ⟨c0, cs, hvc, hV, hj, hl⟩ := valueChunks_ok k v bs hq hp
-      obtain ⟨d0, ds, hcl, hqs, hfold⟩ := qstate_chunks (('/' :: k) == c!"/translation") k hk cs c0 [] ' ' hV (by simp) hl
+      obtain ⟨c0, cs, hvc, hV, hj, hl⟩ := valueChunks_ok k v bs hp
+      obtain ⟨d0, ds, hcl, hqs, hfold⟩ := qstate_chunks (('/' :: k) == c!"/translation") k cs c0 [] ' ' hV hl
       simp only [List.append_nil] at hqs hfold
       obtain ⟨c1, c2, c3, c4⟩ := slashKey_line k ('=' :: '"' :: d0) hk (Or.inr ⟨_, rfl⟩)
       have hkt := keyTr_eq k ('=' :: '"' :: d0) hk (Or.inr ⟨_, rfl⟩)
@@ -646,7 +676,7 @@ theorem qualLines_ok (k v : Str) (bs : List Nat) (st : Nat) (h : wfQual (k, v) =
       · rw [hvc, hcl]; simp [hang, W, List.append_assoc]
       · rw [hkt]; exact hqs
       · rw [hkt, hfold, hj]
-        obtain ⟨p1, p2, p3⟩ := parse_qual_text k v hk hq
+        obtain ⟨p1, p2, p3⟩ := parse_qual_text k v hk hh1 hh2
         simp only [qualKV, p1, headOf, p2, attributeValueOf, p3]
 
 /-! ### map insertion with fresh keys -/
@@ -832,7 +862,7 @@ theorem fLine_split (key lc0 : Str) (h : FKeyOK key) (hl : LocChunk lc0) :
       (by
         intro c hc
         rw [← List.append_assoc, getLast?_append_ne _ _ hl.1] at hc
-        exact (isLocChar_facts (hl.2 c (List.mem_of_getLast? hc))).2.2)
+        exact (isLocChar_facts (hl.2 c (List.mem_of_getLast? hc))).2)
     simpa [spaces] using this
   have hkt : trimSpace key = key :=
     trimSpace_id key (fun c hc => (h.ns c (List.mem_of_mem_head? hc)).1) (fun c hc => (h.ns c (List.mem_of_getLast? hc)).1)
@@ -977,7 +1007,11 @@ theorem featLoop_feats (lines : List Str) (stop : Str) (B : List Str)
     have hget : lines[A.length]? = some (fLine ft.key lc0) := by rw [hl]; exact getElem?_mid _ _ _
     simp only [featLoop, hget, c1, c2, Outcome.bind_ok', Bool.false_eq_true, if_false, Bool.not_true, s1, s2]
     -- the location lines
-    have hloc := locLoop_conts lines A.length lcs stopQ B2 (fun c hc => hchunks c (by simp [hc])) hnextQ
+    have hloc := locLoop_conts lines A.length lcs stopQ B2
+      (fun c hc => ⟨hchunks c (by simp [hc]), by
+        have := cutLocAux_tail_heads (ls.headD {}).loc 0 ft.loc c
+        rw [show cutLocAux (ls.headD {}).loc 0 ft.loc = cutLoc (ls.headD {}).loc ft.loc from rfl, hcut] at this
+        exact this (by simpa using hc)⟩) hnextQ
       (A ++ [fLine ft.key lc0]) 0 lc0 (lines.length + 1) (by rw [hl, ← hB2]; simp) (by simp)
       (by rw [hl]; simp; omega)
     rw [hloc]
